@@ -6,7 +6,7 @@ def lrc_precheck(ctx):
     from smartquery import SqParser
     from sqv import lrc_checks
     cx = lrc_checks.Ctx(SqParser(), 5, "full", timeout=60)
-    v = lrc_checks.validate(cx, n=300 if ctx["tier"] == "quick" else 1200, seed=ctx["seed"])
+    v = lrc_checks.validate(cx, n=160 if ctx["tier"] == "quick" else 1200, seed=ctx["seed"])
     out = {"encoder_validation": v, "tables": cx.T.summary()}
     if v["n_disagreements"]:
         out["abort"] = v["disagreements"]
@@ -43,6 +43,7 @@ def lxc_obligations(ctx, queries, prefix="lxc."):
     W = 7 if quick else 10
     desc = {"linefeeds": "every LF / CR LF / ';' the lexer meets is one NEWLINE match and no other token contains a line feed",
             "names": "%..% names run to the next %, plain names are maximal word-character runs; every non-digit word character starts a NAME",
+            "reference": "the master regex tokenises every text exactly like the published token definitions in spec/grammar_ref.json (two rule sets over the same symbolic characters)",
             "blank": "a space or tab inserted where the lexer stands changes no earlier raw match and is skipped (two linked texts)",
             "crlf": "CR inserted before a line feed: earlier raw matches unchanged (a comment may absorb it), CR LF is one NEWLINE (two linked texts)"}
     return [Obligation(f"{prefix}{q}", "z3", "lxc_checks", q, param={"W": W}, timeout=240 if quick else 1500, twin_timeout=0,
@@ -87,9 +88,10 @@ def lrc_obligations(ctx, queries, prefix=""):
 
 def plan(ctx):
     obs = lrc_obligations(ctx, ["soundness", "completeness", "patterns"])
+    obs += lxc_obligations(ctx, ["reference"])
     return {
         "obligations": obs,
-        "precheck": lrc_precheck,
+        "precheck": both_prechecks,
         "explanation": "z3 decides, for ALL token strings up to the stated length over the stated alphabet, queries over an SMT chart of the run of "
                        "the real LALR tables (regenerated from the snapshot by SqParser()): acceptance == derivability in the productions with the "
                        "operator-table filters of the property, and no parent/child grouping against the table. Counterexamples are rendered to "
